@@ -43,6 +43,7 @@ ASSUMPTIONS = [
     "hashing sorts them and refuses mixed kinds by design, see C08)",
 ]
 SHARDS = {"quick": 16, "thorough": 16}
+WALL = {"quick": 400, "thorough": 1500}  # ~25-40 s on an idle 16-core machine; import-bound under load
 
 LAST: dict = {}
 
